@@ -108,6 +108,7 @@ struct Run {
         w = CWallet::CreateNew(env.ctx, "", open_db(file(), ctl), WALLET_FLAG_DESCRIPTORS, /*born_encrypted=*/false, error, warnings);
         if (!w) throw std::runtime_error("create failed: " + error.original);
         table(*w);
+        ctl->count_abort = true;
     }
     ~Run()
     {
